@@ -26,7 +26,7 @@ Theorem C48_cow_keeps_all_values : forall alloc_cap h vs ex i s ns0 r (isok : bo
   cow alloc_cap h s ns0 = (if isok then Ok r else Throw r) ->
   keeps h vs ex i r /\
   (isok = true -> tail (fst r) (snd r) /\ sole vs i (snd r) /\ slen (snd r) = slen s /\
-                  ((forall n, n <= alloc_cap n) ->
+                  ((forall n, n <= maxSize -> n <= cap32 alloc_cap n) ->
                    clamp_newsize s ns0 - slen s <=
                    bcap (getb (fst r) (sstore (snd r))) - bsize (getb (fst r) (sstore (snd r))))).
 Proof. exact cow_spec. Qed.
@@ -48,16 +48,18 @@ Theorem C48_append_is_list_append_even_when_aliased : forall alloc_cap h vs ex i
 Proof. exact lowAppend_spec. Qed.
 
 (* --- one operation on variables = the same operation on independent values.
-   PARTIAL: `covered` holds for assign (v[i] = v[j], incl. i = j), append/assign of external bytes
-   (append(ptr,n), push_back), chop (with non-wrapping arguments, see C48_chop_wrap_refuted), clear,
-   reserveSpace, reserveCapacity and all const operations. Not yet lifted to this level (modelled and
-   differentially tested only): append(SBuf) / append(own pointer) [their core is the theorem above],
-   assign(ptr,n), consume, substr, trim, setAt, toLower/toUpper [core: C48_cow_keeps_all_values],
-   reserve(req), rawAppendStart/Finish, c_str. --- *)
+   `covered` = every modelled operation whose indices name existing variables (rawAppend: the caller
+   writes at most the n bytes it asked for) EXCEPT toLower, toUpper and c_str, which are modelled and
+   differentially tested but not lifted here (hence _partial). Covered: assign(ptr,n), v[i]=v[j]
+   (incl. i=j), append(SBuf) (incl. a.append(a)), append(ptr,n), append/assign from a pointer into
+   another or the SAME variable's storage, push_back, consume, chop, substr, trim (incl. a.trim(a)),
+   setAt, clear, reserveSpace, reserveCapacity, reserve(req), rawAppendStart+Finish, all const operations.
+   `spec_after` applies the operation to a list of independent byte strings (spec_vals); an operation
+   that threw changes nothing (assign(ptr,n) has already cleared its target: spec_throw); a skipped
+   pointer operation / a short rawAppendStart change nothing. --- *)
 Theorem C48_step_refines_values_partial : forall alloc_cap st o, SInv st -> covered st o ->
   SInv (fst (step alloc_cap st o)) /\ snd (step alloc_cap st o) <> RUndef /\
-  absv (fst (step alloc_cap st o)) =
-    if threw (snd (step alloc_cap st o)) then absv st else spec_vals (absv st) o.
+  absv (fst (step alloc_cap st o)) = spec_after (absv st) o (snd (step alloc_cap st o)).
 Proof. exact step_refines. Qed.
 
 (* --- any sequence of covered operations on any number of variables, from any state satisfying the
@@ -67,49 +69,38 @@ Theorem C48_run_refines_values_partial : forall alloc_cap ops st, SInv st -> cov
   absv (fst (run alloc_cap st ops)) = spec_run (absv st) ops (snd (run alloc_cap st ops)).
 Proof. exact run_refines. Qed.
 
-(* --- the <cctype> maps SBuf::toLower/toUpper apply (regenerated from the platform) are ASCII case maps
-   on all 256 byte values --- *)
+(* --- setAt (copy-on-write then poke): target becomes pokeN, everybody else unchanged, a throw changes
+   nothing, and afterwards the target is the only variable on its blob --- *)
+Theorem C48_setAt_writes_only_the_target : forall alloc_cap h vs ex i s pos c,
+  Inv h vs ex -> (i < length vs)%nat -> nth i vs sb0 = s ->
+  RS h vs ex i (pokeN (content h s) pos c) (content h s) (sb_setAt alloc_cap h s pos c) /\
+  (forall x, sb_setAt alloc_cap h s pos c = Ok x ->
+     tail (fst x) (snd x) /\ sole vs i (snd x) /\ slen (snd x) = slen s).
+Proof. exact sb_setAt_RS. Qed.
+
+(* --- the <cctype> maps SBuf::toLower/toUpper and memcasecmp apply (regenerated from the platform) are
+   the ASCII case maps on all 256 byte values; hence case-insensitive comparison is byte-wise
+   comparison of the lower-cased values (was false before /repo commit 9d80e16) --- *)
 Theorem C48_case_maps_are_ascii : forall c, c < 256 ->
   (if c_isupper c then to_char (c_tolower c) else c) = lower_byte c /\
-  (if c_islower c then to_char (c_toupper c) else c) = upper_byte c.
+  (if c_islower c then to_char (c_toupper c) else c) = upper_byte c /\
+  c_tolower_u c = Z.of_N (lower_byte c).
 Proof. exact case_tables_ascii. Qed.
+Theorem C48_casecmp_is_cmp_of_lowercased : forall a b,
+  Forall (fun c => c < 256) a -> Forall (fun c => c < 256) b ->
+  cmp_with c_tolower_u a b = cmp_with Z.of_N (map lower_byte a) (map lower_byte b).
+Proof. exact casecmp_is_cmp_of_lowercased. Qed.
 
-(* --- the full statement is FALSE for the code as it is: three witnesses (allocator = harness policy),
-   each reached from fresh variables by covered operations and confirmed on the real code
-   (corpus/C48/known.txt) --- *)
-(* chop/substr with n in (2^32 - pos, npos): pos+n wraps, the object gets len_ = n *)
-Theorem C48_chop_wrap_refuted :
-  exists st, SInv st /\ (0 < length (vars st))%nat /\ nth 0 (absv st) [] = hello /\
-    sb_broken (hp (fst (step_h st (OChp 0 5 4294967294)))) (getv (fst (step_h st (OChp 0 5 4294967294))) 0) = true.
-Proof. exact chop_wrap_witness. Qed.
-
-(* rawAppendStart(0); rawAppendFinish(p, 0) on a value that shares a longer blob truncates the blob's
-   used size under the OTHER variable *)
-Theorem C48_raw_zero_refuted :
-  exists st, SInv st /\ (1 < length (vars st))%nat /\
-    nth 0 (absv st) [] = hello /\ nth 1 (absv st) [] = takeN 5 hello /\
-    snd (step_h st (ORaw 1 0 [])) = RVoid /\
-    sb_broken (hp (fst (step_h st (ORaw 1 0 [])))) (getv (fst (step_h st (ORaw 1 0 []))) 0) = true.
-Proof. exact raw_zero_witness. Qed.
-
-(* "beyond size limits throw": rawAppendStart(n) with n + length >= 2^32 returns normally *)
-Theorem C48_raw_limit_refuted :
-  exists st, SInv st /\ (0 < length (vars st))%nat /\ lenN (nth 0 (absv st) []) = 2 /\
-    maxSize < 4294967294 /\ snd (step_h st (ORaw 0 4294967294 [])) = RShort.
-Proof. exact raw_short_witness. Qed.
-
-(* case-insensitive compare orders byte 0xff below 'a' although 0xff > 'a' byte-wise *)
-Theorem C48_casecmp_0xff_refuted :
-  sb_compare [255] [97] true npos = (-1)%Z /\ sb_compare [255] [97] false npos = 1%Z /\ lower_byte 255 = 255 /\ 97 < 255.
-Proof. exact casecmp_0xff_witness. Qed.
-
-(* non-vacuity: the hypotheses are satisfiable by concrete non-trivial states and operations *)
+(* non-vacuity: the hypotheses are satisfiable by concrete non-trivial states and operations
+   (the former counterexamples chop(5, npos-1) and rawAppend(0, "") on a shared blob are now covered) *)
 Example C48_covered_example :
-  covered_run harness_alloc_cap (init_h 2) [OApl 0 hello; OAsg 1 0; OChp 1 0 5; OApl 1 [33]; OClr 0].
-Proof. cbn [covered_run]. repeat split; try (vm_compute; lia). right. vm_compute. reflexivity. Qed.
+  covered_run harness_alloc_cap (init_h 2)
+    [OApl 0 hello; OSub 1 0 0 5; ORaw 1 0 []; OApl 1 [88; 89; 90]; OChp 0 5 4294967294; OApp 1 1; OSat 0 0 74; OTrm 1 1 true true].
+Proof. cbn [covered_run]. repeat split; try (vm_compute; lia); try (vm_compute; intro X; discriminate X). Qed.
 Example C48_run_example :
-  absv (fst (run harness_alloc_cap (init_h 2) [OApl 0 hello; OAsg 1 0; OChp 1 0 5; OApl 1 [33]; OClr 0]))
-  = [[]; [104; 101; 108; 108; 111; 33]].
+  absv (fst (run harness_alloc_cap (init_h 2)
+    [OApl 0 hello; OSub 1 0 0 5; ORaw 1 0 []; OApl 1 [88; 89; 90]; OChp 0 5 4294967294; OApp 1 1; OSat 0 0 74; OTrm 1 1 true true]))
+  = [[74; 119; 111; 114; 108; 100]; []].
 Proof. vm_compute. reflexivity. Qed.
 Example C48_src_ok_self_alias_example :   (* a.append(a) under the Locker: the source is this's own, doubly held blob *)
   let st := fst (step_h (init_h 1) (OApl 0 hello)) in
@@ -124,8 +115,6 @@ Print Assumptions C48_cow_keeps_all_values.
 Print Assumptions C48_append_is_list_append_even_when_aliased.
 Print Assumptions C48_step_refines_values_partial.
 Print Assumptions C48_run_refines_values_partial.
+Print Assumptions C48_setAt_writes_only_the_target.
 Print Assumptions C48_case_maps_are_ascii.
-Print Assumptions C48_chop_wrap_refuted.
-Print Assumptions C48_raw_zero_refuted.
-Print Assumptions C48_raw_limit_refuted.
-Print Assumptions C48_casecmp_0xff_refuted.
+Print Assumptions C48_casecmp_is_cmp_of_lowercased.
